@@ -459,5 +459,49 @@ def run(ctx):
           and isinstance(n.targets[0].slice, ast.Constant) and n.targets[0].slice.value == 'enable_tls_client_auth']
     ctx.check(len(dv) == 1 and isinstance(dv[0], ast.Constant) and dv[0].value is True, 'C17.R6', 'KmipServerConfig.__init__|default', '%s:%s' % (CONFIG, cinit.lineno),
               'default setting True', 'the default for enable_tls_client_auth is not True')
+    # every [auth:*] section of the configuration file reaches the session: a plugin block that is dropped on the way (for whatever
+    # reason) is a plugin that never vouches - and with none left the session falls back to the certificate's common name alone
+    pas = get_method(cc, 'parse_auth_settings', optional=True)
+    ctx.need(pas is not None, 'anchor vanished: KmipServerConfig.parse_auth_settings')
+    pg = CFG(pas)
+    prd = ReachingDefs(pg)
+    stores = [n for n in pg.nodes if n.kind == 'stmt' and isinstance(n.stmt, ast.Assign) and isinstance(n.stmt.targets[0], ast.Subscript)
+              and isinstance(n.stmt.targets[0].slice, ast.Constant) and n.stmt.targets[0].slice.value == 'auth_plugins']
+    okp = len(stores) == 1 and isinstance(stores[0].stmt.value, ast.Name)
+    why_p = 'settings[auth_plugins] is not assigned one list built in parse_auth_settings'
+    if okp:
+        lst = stores[0].stmt.value.id
+        apps = [(n, c) for n in pg.nodes for c in calls_at(n) if isinstance(c.func, ast.Attribute) and c.func.attr == 'append' and isinstance(c.func.value, ast.Name) and c.func.value.id == lst]
+        okp = bool(apps)
+        for n, c in apps:
+            # the only condition on the way to the append (in this loop or the loop that selected the sections): <name>.startswith('auth:')
+            conds = []
+            pending = [n]
+            seen_lists = set()
+            while pending:
+                x = pending.pop()
+                for t, lab in dominating_edges(pg, x):
+                    conds.append((t, lab))
+                # the collection iterated: if it was itself built by appends, their conditions count as well
+                for lp in x.loops:
+                    if isinstance(lp, ast.For) and isinstance(lp.iter, ast.Name) and lp.iter.id not in seen_lists:
+                        seen_lists.add(lp.iter.id)
+                        for n2 in pg.nodes:
+                            for c2 in calls_at(n2):
+                                if isinstance(c2.func, ast.Attribute) and c2.func.attr == 'append' and isinstance(c2.func.value, ast.Name) and c2.func.value.id == lp.iter.id:
+                                    pending.append(n2)
+            for t, lab in conds:
+                ts = U(t.stmt)
+                if not (lab == 'T' and ts.endswith(".startswith('auth:')")):
+                    okp = False
+                    why_p = 'a section is passed on only if %s (%s edge)' % (short(t.stmt, 60), lab)
+            a0 = c.args[0] if c.args else None
+            if not (isinstance(a0, ast.Tuple) and len(a0.elts) == 2):
+                okp = False
+                why_p = 'what is collected is not (section name, options)'
+        if okp and not any(ts for ts in [1]):
+            pass
+    ctx.check(okp, 'C17.R6', 'KmipServerConfig.parse_auth_settings|every-auth-section-kept', '%s:%s KmipServerConfig.parse_auth_settings' % (CONFIG, pas.lineno),
+              'every section whose name starts with auth: is handed on as (name, options)', 'an authentication plugin section of the configuration can be dropped before it reaches the session: %s' % why_p)
     ctx.not_decided += ['TLS layer behaviour (handshake, certificate validation by ssl)', 'what a SLUGS server answers']
     ctx.assumptions += ['cryptography.x509 accessors return what their names say', 'requests.get raises or returns a response with status_code']
